@@ -47,9 +47,9 @@ def clause_tables(rep):
 def run(rep):
     common.load_contracts()
     from contracts.sql import C13_SHAPE_CASES
-    from contracts.grouping import WHERE_SHAPE_CASES, JOINER_SHAPE_CASES, MORE_PASS_SHAPE_CASES, MORE_JOINER_SHAPE_CASES
+    from contracts.grouping import WHERE_SHAPE_CASES, JOINER_SHAPE_CASES, MORE_PASS_SHAPE_CASES, MORE_JOINER_SHAPE_CASES, DECORATED_WHERE_CASES
     return generic.run_generic(
-        rep, tc.NAV_FUNCS + list(C13_SHAPE_CASES) + list(WHERE_SHAPE_CASES) + list(MORE_PASS_SHAPE_CASES) + list(MORE_JOINER_SHAPE_CASES) + [c for c in JOINER_SHAPE_CASES if 'identifier_list' in c[0]] + [(tc.GT, 'new group'), ('sqlparse.engine.grouping.group_where', 'call sites'),
+        rep, tc.NAV_FUNCS + list(C13_SHAPE_CASES) + list(WHERE_SHAPE_CASES) + list(DECORATED_WHERE_CASES) + list(MORE_PASS_SHAPE_CASES) + list(MORE_JOINER_SHAPE_CASES) + [c for c in JOINER_SHAPE_CASES if 'identifier_list' in c[0]] + [(tc.GT, 'new group'), ('sqlparse.engine.grouping.group_where', 'call sites'),
                              ('sqlparse.engine.grouping.group_where', 'call sites, inside a bracket or block group'),
                              ('sqlparse.sql.IdentifierList.get_identifiers', 'body'),
                              ('sqlparse.sql.Comparison.left', 'total'), ('sqlparse.sql.Comparison.right', 'total')] + tc.JOINER_FUNCS,
